@@ -503,7 +503,7 @@ theorem syncE_spec {x : Pair} (hc : Coupled x) (now na : Int) (fresh : List KeyI
     (x.sync now na fresh).ch = x.ch ∧ (x.sync now na fresh).ph = x.ph := by
   have hndP := (reachable_inv hc.inv.rp).core.nodup
   have hndC := (reachable_inv hc.inv.rc).core.nodup
-  obtain ⟨s', hn, h1, h2, h3, h4, h5, h6⟩ := updEnt_spec hc.inv.rc hc.inv.repo hc.inv.nolim x.ph hc.uniq
+  obtain ⟨s', hn, h1, h2, h3, h4, h5, h6, _⟩ := updEnt_spec hc.inv.rc hc.inv.repo hc.inv.nolim x.ph hc.uniq
     (x.parent.ca.entitlementsFor x.ch na) (entitlementsFor_nodup na hndP hc.names) now fresh hlen
   have hy : x.sync now na fresh = { x with child := s' } := by
     unfold Pair.sync
@@ -518,7 +518,7 @@ theorem syncE_spec {x : Pair} (hc : Coupled x) (now na : Int) (fresh : List KeyI
       (∀ k, rc'.keys = .active k → ∃ rc k0, get x.child.ca.classes r = some rc ∧ rc.parent = x.ph ∧
         rc.parentRcn = rc'.parentRcn ∧ rc.keys = .active k0 ∧ k0.id = k.id ∧ k0.cert = k.cert) := by
     intro r rc' hg hp
-    rcases h5 r rc' hg with ⟨rc, hgx, hpp, heq⟩ | ⟨rc, ent, hgx, hpp, hent, hname, heq⟩ | ⟨ent, k, hent, _, _, heq⟩
+    rcases h5 r rc' hg with ⟨rc, hgx, hpp, heq⟩ | ⟨rc, ent, hgx, hpp, hent, hname, heq⟩ | ⟨ent, k, hent, _, _, _, heq⟩
     · rw [heq] at hp; exact absurd hp hpp
     · obtain ⟨hoff, hna⟩ := mem_entitlementsFor hndP hent
       have hpl := hc.noroll r rc hgx hpp
